@@ -12,6 +12,7 @@ Definition op_okb (o : op) : bool :=
   match o with
   | TIn v | TOut v _ | SOut v | OOut v | OChange v | IOut v => zat_okb v
   | SSpend v | OSpend v | ISpend v _ => in_u64 v
+  | TInSh v m n => zat_okb v && (1 <=? m) && (m <=? n) && (n <=? 3)
   | TNull n => in_range 0 100000 n
   | Propose (VSprout n) => in_u32 n
   | Propose _ => true
@@ -24,6 +25,8 @@ Definition rule_okb (ru : rule) : bool :=
 Definition wf_req (r : req) : bool :=
   in_u32 (r_height r) && forallb op_okb (r_ops r) && pad_okb (r_opad r) && pad_okb (r_ipad r)
   && rule_okb (r_rule r)
-  && match r_route r, r_rule r with Mock, RLin _ => false | _, _ => true end.
+  && forallb (in_range 4 6) (r_keys r)
+  && match r_route r, r_rule r with Mock, RLin _ => false | _, _ => true end
+  && (negb (is_deferred r) || forallb deferred_op (r_ops r)).
 
 Definition wf_case (c : case) : bool := match c with Case r _ _ => wf_req r end.
